@@ -81,7 +81,7 @@ theorem tie_timeoutHandlerCtorShape : timeoutHandlerCtorShape = expected_timeout
 handler goroutine (`hstep`: ServeHTTP(tw, r) then `close done`; recover → `send panicChan`); the select with its three
 branches: `mPanic` (re-panic), `mDone` (lock, copy headers, status if ≠ 200, body), `mTimeout`/`mAdv` (lock,
 ErrorCtx → WriteHeader 499/503 + reason, `store tw.timedOut`, deferred unlock) -/
-def expected_serveHTTPShape : List String := [
+def expected_serveHTTPShape (statusCond : String) : List String := [
   "if r.Header.Get(headerUpgrade) == valueWebsocket || r.Header.Get(headerAccept) == valueSSE {",
   "call h.handler.ServeHTTP",
   "return",
@@ -120,7 +120,7 @@ def expected_serveHTTPShape : List String := [
   "range tw.h {",
   "mapset dst",
   "}",
-  "if tw.code != http.StatusOK {",
+  statusCond,
   "call w.WriteHeader",
   "}",
   "call tw.wbuf.Bytes",
@@ -146,7 +146,13 @@ def expected_serveHTTPShape : List String := [
   "store tw.timedOut",
   "}"]
 
-theorem tie_serveHTTPShape : serveHTTPShape = expected_serveHTTPShape := by decide
+def statusCondPinned : String := "if tw.code != http.StatusOK {"
+def statusCondFixed : String := "if tw.code != http.StatusOK && !tw.flushed {"
+
+/-- the done branch writes the buffered status unless it is 200 — and (fixed code) unless a `Flush` has sent it already -/
+theorem tie_serveHTTPShape :
+    serveHTTPShape = expected_serveHTTPShape statusCondPinned ∨
+    serveHTTPShape = expected_serveHTTPShape statusCondFixed := by decide
 
 /-- the context handed to the work is the one returned by `context.WithTimeout(r.Context(), h.dt)`; the work writes
 to `tw`, not `w`; exempt requests get `w, r` untouched; the timeout branch writes 499 for Canceled else 503, then the reason,
@@ -214,21 +220,51 @@ def expected_twWriteHeaderLockedShape : List String := [
 
 theorem tie_twWriteHeaderLockedShape : twWriteHeaderLockedShape = expected_twWriteHeaderLockedShape := by decide
 
-/-- `Flush` as it exists: no `mu`, no `timedOut` test, copies headers, writes and resets the buffer (model: `flushNow`) -/
-def expected_twFlushShape : List String := [
+/-- `Flush` PINNED: no `mu`, no `timedOut` test, copies headers, writes and resets the buffer (model: `flushNowPinned`,
+`stepPinned`; findings flush-after-timeout / flush-drops-status) -/
+def expected_twFlushPinned : List String := [
+  "flusher, ok := tw.w.(http.Flusher)",
   "if !ok {",
   "return",
   "}",
-  "call tw.w.Header",
+  "header := tw.w.Header()",
   "range tw.h {",
-  "mapset header",
+  "header[k] = v",
   "}",
-  "call tw.wbuf.Bytes",
-  "call tw.w.Write",
-  "call tw.wbuf.Reset",
-  "call flusher.Flush"]
+  "tw.w.Write(tw.wbuf.Bytes())",
+  "tw.wbuf.Reset()",
+  "flusher.Flush()"]
 
-theorem tie_twFlushShape : twFlushShape = expected_twFlushShape := by decide
+/-- `Flush` FIXED (fixes/C04-flush-after-timeout.patch): under `mu` (deferred unlock), nothing once `timedOut`, the
+first flush sends the buffered status (model: `hstep` flush case, `flushNow`) -/
+def expected_twFlushFixed : List String := [
+  "flusher, ok := tw.w.(http.Flusher)",
+  "if !ok {",
+  "return",
+  "}",
+  "tw.mu.Lock()",
+  "defer tw.mu.Unlock()",
+  "if tw.timedOut {",
+  "return",
+  "}",
+  "header := tw.w.Header()",
+  "range tw.h {",
+  "header[k] = v",
+  "}",
+  "if !tw.flushed && tw.code != http.StatusOK {",
+  "tw.w.WriteHeader(tw.code)",
+  "}",
+  "tw.flushed = true",
+  "tw.w.Write(tw.wbuf.Bytes())",
+  "tw.wbuf.Reset()",
+  "flusher.Flush()"]
+
+/-- `Flush` and the done branch are both in the pinned form or both in the fixed form — never half.  (The
+correspondence run accepts, per line with a `Flush`, the pinned or the fixed model and counts which one explained it;
+the monitor reports the pinned behaviour as the recorded findings flush-after-timeout / flush-drops-status.) -/
+theorem tie_twFlush :
+    (twFlushDetail = expected_twFlushPinned ∧ serveHTTPShape = expected_serveHTTPShape statusCondPinned) ∨
+    (twFlushDetail = expected_twFlushFixed ∧ serveHTTPShape = expected_serveHTTPShape statusCondFixed) := by decide
 
 /-- `Header()` hands out the map without locking (model: `setHeader` needs no lock) -/
 def expected_twHeaderShape : List String := [
